@@ -40,6 +40,19 @@ let ke toks =
      | _ -> raise (Bad_case "ke"))
   | _ -> raise (Bad_case "ke")
 
+
+(* two documents: parse both with the model parser, canonicalize, print *)
+let kd toks =
+  match toks with
+  | ["kd"; "|"; a; "|"; b] ->
+    let canon_doc h = match parse_str (cps_of_tok h) with
+      | Ok (v, _) -> Some (canon_text v)
+      | _ -> None in
+    (match canon_doc a, canon_doc b with
+     | Some x, Some y -> (Printf.sprintf "same=%s a=%s" (tok_of_bool (x = y)) x, "")
+     | _ -> ("REJECTED", ""))
+  | _ -> raise (Bad_case "kd")
+
 let c09 toks =
   try
     match toks with
@@ -57,6 +70,7 @@ let c10 toks =
   try
     match toks with
     | "ke" :: _ -> ke toks
+    | "kd" :: _ -> kd toks
     | "k" :: "|" :: vt ->
       let (v, _) = dec_value vt in
       let once = canon v in
